@@ -68,7 +68,7 @@ def _sample_of(spec):
             o["t"] = float.fromhex(op["t"])
         return o
     return {"kind": spec["kind"], "index": spec["index"], "families": spec["families"], "run": spec.get("run", {}),
-            "ops": [brief(o) for o in spec["ops"][:40]], "intents": [[i["step"], i["kind"]] for i in spec.get("intents", [])]}
+            "ops": [brief(o) for o in spec["ops"][:40]], "intents": [[i["step"], i.get("kinds")] for i in spec.get("intents", [])]}
 
 
 def load_known(prop):
@@ -219,11 +219,11 @@ class Aggregate(object):
                 self.dep_names[k] = self.dep_names.get(k, 0) + v
             if tail.get("fd_delta", 0) > 0:
                 self.fd_leaks += 1
-            st = tail.get("state")
-            if st is not None:
-                self.state_sigs.add(canon(sorted(st.items())))
-                for k, v in st.items():
-                    self.dirty_vars.setdefault(k, set()).add(v)
+            for st in [tail.get("state")] + list(tail.get("step_states") or []):
+                if st is not None:
+                    self.state_sigs.add(canon(sorted(st.items())))
+                    for k, v in st.items():
+                        self.dirty_vars.setdefault(k, set()).add(v)
 
 
 def plan_tasks(prop, tier, seed, n_corner, n_swarm, state_every=5, n_corner_all=None):
@@ -239,9 +239,9 @@ def plan_tasks(prop, tier, seed, n_corner, n_swarm, state_every=5, n_corner_all=
         off = h64(seed, "cornerstone-offset") % total
         ks = sorted({(off + j * step) % total for j in range(n_corner)})
     for k in ks:
-        tasks.append((prop, tier, seed, "cornerstone", k, k % state_every == 0))
+        tasks.append((prop, tier, seed, "cornerstone", k, ("steps" if k % (2 * state_every) == 0 else True) if k % state_every == 0 else False))
     for i in range(n_swarm):
-        tasks.append((prop, tier, seed, "swarm", i, i % state_every == 0))
+        tasks.append((prop, tier, seed, "swarm", i, ("steps" if i % (2 * state_every) == 0 else True) if i % state_every == 0 else False))
     return tasks
 
 
@@ -360,7 +360,7 @@ def main(prop, judge, make, sizes, describe, argv=None):
     reported = []
     for sig in sorted(new_viol)[:6]:
         r, v = sorted(new_viol[sig], key=lambda rv: (len(rv[0]["spec"]["ops"]), rv[0]["task"]))[0]
-        print("violation class %s: %d run(s); first: run %s step %s: %s" % (
+        print("violation class %s: %d occurrence(s); first: run %s step %s: %s" % (
             sig, len(new_viol[sig]), r["task"], v.get("step"), json.dumps(v, default=_jsonable)[:500]), flush=True)
         if args.no_shrink:
             tag = "%s-s%s-%s%s-raw" % (sig, seed, r["task"][0][0], r["task"][1])
@@ -378,6 +378,13 @@ def main(prop, judge, make, sizes, describe, argv=None):
     if len(new_viol) > 6:
         print("(%d further violation classes not minimised: %s)" % (len(new_viol) - 6, sorted(new_viol)[6:]))
 
+    # shared process state by discovery: anything dirty that the committed baseline does not list is reported (information)
+    base_path = os.path.join(VERIF_ROOT, "shared_state_baseline.json")
+    if os.path.exists(base_path):
+        with open(base_path) as f:
+            base_vars = set(json.load(f)["variables"])
+        for name in sorted(set(agg.dirty_vars) - base_vars):
+            print("NEW-SHARED-STATE %s (process-global variable written during the runs; not in shared_state_baseline.json)" % name)
     wall = time.time() - t0
     if args.fingerprints:
         with open(args.fingerprints, "w") as f:
